@@ -133,45 +133,40 @@ func (v *Version) Compare(other *Version) int {
 }
 
 // compareDebianVersionString compares two Debian version strings using Debian's rules
-// This implements the dpkg version comparison algorithm
+// This implements the dpkg version comparison algorithm (verrevcmp in lib/dpkg/version.c):
+// alternating non-digit and digit runs; in a non-digit run '~' sorts before everything,
+// even the end of the string, letters sort before all other characters; digit runs are
+// compared as integers of any length and an empty run counts as zero.
 func compareDebianVersionString(a, b string) int {
 	i, j := 0, 0
 
 	for i < len(a) || j < len(b) {
-		// Extract non-digit prefix
+		// Compare the non-digit runs character by character
+		for (i < len(a) && !isDebianDigit(a[i])) || (j < len(b) && !isDebianDigit(b[j])) {
+			aWeight := getDebianCharWeight(debianCharAt(a, i))
+			bWeight := getDebianCharWeight(debianCharAt(b, j))
+			if aWeight != bWeight {
+				if aWeight < bWeight {
+					return -1
+				}
+				return 1
+			}
+			i++
+			j++
+		}
+
+		// Extract digit runs
 		iStart := i
-		for i < len(a) && !unicode.IsDigit(rune(a[i])) {
+		for i < len(a) && isDebianDigit(a[i]) {
 			i++
 		}
-		aNonDigit := a[iStart:i]
-
 		jStart := j
-		for j < len(b) && !unicode.IsDigit(rune(b[j])) {
+		for j < len(b) && isDebianDigit(b[j]) {
 			j++
 		}
-		bNonDigit := b[jStart:j]
-
-		// Compare non-digit parts lexicographically with special tilde handling
-		nonDigitCmp := compareDebianNonDigits(aNonDigit, bNonDigit)
-		if nonDigitCmp != 0 {
-			return nonDigitCmp
-		}
-
-		// Extract digit prefix
-		iStart = i
-		for i < len(a) && unicode.IsDigit(rune(a[i])) {
-			i++
-		}
-		aDigit := a[iStart:i]
-
-		jStart = j
-		for j < len(b) && unicode.IsDigit(rune(b[j])) {
-			j++
-		}
-		bDigit := b[jStart:j]
 
 		// Compare digit parts numerically
-		digitCmp := compareDebianDigits(aDigit, bDigit)
+		digitCmp := compareDebianDigits(a[iStart:i], b[jStart:j])
 		if digitCmp != 0 {
 			return digitCmp
 		}
@@ -180,82 +175,38 @@ func compareDebianVersionString(a, b string) int {
 	return 0
 }
 
-// compareDebianNonDigits compares non-digit parts with Debian-specific rules
-func compareDebianNonDigits(a, b string) int {
-	maxLen := max(len(a), len(b))
+func isDebianDigit(c byte) bool { return c >= '0' && c <= '9' }
 
-	for i := range maxLen {
-		var aChar, bChar rune
-
-		// Get character or treat missing as null (sorts before anything)
-		if i < len(a) {
-			aChar = rune(a[i])
-		} else {
-			aChar = 0 // null character
-		}
-		if i < len(b) {
-			bChar = rune(b[i])
-		} else {
-			bChar = 0 // null character
-		}
-
-		// Apply Debian character weights
-		aWeight := getDebianCharWeight(aChar)
-		bWeight := getDebianCharWeight(bChar)
-
-		if aWeight != bWeight {
-			if aWeight < bWeight {
-				return -1
-			}
-			return 1
-		}
+// debianCharAt returns the character at position i, or 0 past the end of the string
+func debianCharAt(s string, i int) byte {
+	if i < len(s) {
+		return s[i]
 	}
-
 	return 0
 }
 
-// getDebianCharWeight returns the sort weight for a character per Debian rules
-// Tilde (~) sorts earliest, then null, then letters/other chars
-func getDebianCharWeight(r rune) int {
-	switch r {
-	case '~':
+// getDebianCharWeight returns the sort weight for a character per Debian rules (dpkg's order()):
+// tilde sorts earliest, then the end of the string (and digits, which end a non-digit run),
+// then letters, then all other characters
+func getDebianCharWeight(c byte) int {
+	switch {
+	case c == '~':
 		return -1 // Tilde sorts before everything else
-	case 0:
-		return 0 // Null/missing character
+	case c == 0 || isDebianDigit(c):
+		return 0 // End of string / start of the next digit run
+	case (c >= 'a' && c <= 'z') || (c >= 'A' && c <= 'Z'):
+		return int(c) // Letters sort by ASCII value
 	default:
-		return int(r) // Use Unicode value for other characters
+		return int(c) + 256 // Other characters sort after all letters
 	}
 }
 
-// compareDebianDigits compares digit strings numerically
+// compareDebianDigits compares digit strings numerically (any length, empty counts as zero)
 func compareDebianDigits(a, b string) int {
-	// Empty string is treated as 0
-	if a == "" && b == "" {
-		return 0
-	}
-	if a == "" {
-		return -1
-	}
-	if b == "" {
-		return 1
-	}
+	a = strings.TrimLeft(a, "0")
+	b = strings.TrimLeft(b, "0")
 
-	// Convert to integers for comparison
-	aNum, aErr := strconv.ParseUint(a, 10, 64)
-	bNum, bErr := strconv.ParseUint(b, 10, 64)
-
-	if aErr == nil && bErr == nil {
-		if aNum < bNum {
-			return -1
-		}
-		if aNum > bNum {
-			return 1
-		}
-		return 0
-	}
-
-	// Fallback for very large numbers that don't fit in uint64.
-	// Compare by length first.
+	// Without leading zeros the longer number is the larger one
 	if len(a) < len(b) {
 		return -1
 	}
